@@ -305,6 +305,14 @@ class Repo:
                 except RecursionError:
                     continue
                 if node is not fi.node:
+                    # the load-time normal forms once more: splicing a helper in can create their patterns (a parameter that was a
+                    # literal table at the call, a temporary holding a test, ...)
+                    try:
+                        mod_ = _split_tuple_assignments(ast.Module(body=[node], type_ignores=[]))
+                        if len(mod_.body) == 1 and isinstance(mod_.body[0], ast.FunctionDef):
+                            node = mod_.body[0]
+                    except Exception:
+                        pass
                     # arguments that were literals at the call (helper(None), helper(True)) decide tests inside the spliced body
                     try:
                         from .pe import Specialiser, GiveUp
@@ -489,6 +497,13 @@ def _split_tuple_assignments(tree):
                         args.append(a)
                 if ok:
                     n = ast.copy_location(ast.Call(func=n.func, args=args, keywords=n.keywords), n)
+            # dict(zip(K, V))  ->  {k: v for k, v in zip(K, V)}
+            if isinstance(n.func, ast.Name) and n.func.id == "dict" and len(n.args) == 1 and not n.keywords and isinstance(n.args[0], ast.Call) \
+                    and isinstance(n.args[0].func, ast.Name) and n.args[0].func.id == "zip" and len(n.args[0].args) == 2 and not n.args[0].keywords \
+                    and not any(isinstance(a, ast.Starred) for a in n.args[0].args):
+                k_, v_ = ast.Name(id="__zk", ctx=ast.Store()), ast.Name(id="__zv", ctx=ast.Store())
+                gen = ast.comprehension(target=ast.Tuple(elts=[k_, v_], ctx=ast.Store()), iter=n.args[0], ifs=[], is_async=0)
+                return ast.copy_location(ast.DictComp(key=ast.Name(id="__zk", ctx=ast.Load()), value=ast.Name(id="__zv", ctx=ast.Load()), generators=[gen]), n)
             # attribute_dict.get(k, d)  ->  attribute_dict[k] if k in attribute_dict else d     (the serialisation protocol's plain dict;
             # the subscript form under a membership test is what the restore rules read)
             if isinstance(n.func, ast.Attribute) and n.func.attr == "get" and isinstance(n.func.value, ast.Name) and n.func.value.id == "attribute_dict" \
@@ -505,8 +520,50 @@ def _split_tuple_assignments(tree):
                 return ast.copy_location(ast.Compare(left=n.args[0], ops=[OPS[n.func.attr]()], comparators=[n.args[1]]), n)
             return n
 
+        def _unroll_literal_comprehension(self, n):
+            """`L = [f(a, b) for a, b in [(k1, v1), (k2, v2)] if c(a, b)]` over a *literal* table of at most six rows is the list built
+            row by row:  L = []; if c(k1, v1): L.append(f(k1, v1)); ...   (each row's condition then sits on an edge of its own)"""
+            import copy as _c
+            if not (isinstance(n, ast.Assign) and len(n.targets) == 1 and isinstance(n.targets[0], ast.Name) and isinstance(n.value, ast.ListComp)
+                    and len(n.value.generators) == 1):
+                return None
+            g = n.value.generators[0]
+            if not (isinstance(g.iter, (ast.List, ast.Tuple)) and 1 <= len(g.iter.elts) <= 6 and g.ifs):
+                return None
+            tnames = [x.id for x in ast.walk(g.target) if isinstance(x, ast.Name)]
+            if n.targets[0].id in tnames or any(isinstance(x, ast.Name) and x.id == n.targets[0].id for x in ast.walk(n.value)):
+                return None
+            rows = []
+            for row in g.iter.elts:
+                env = {}
+                if isinstance(g.target, ast.Name):
+                    env[g.target.id] = row
+                elif isinstance(g.target, (ast.Tuple, ast.List)) and isinstance(row, (ast.Tuple, ast.List)) and len(row.elts) == len(g.target.elts) \
+                        and all(isinstance(t, ast.Name) for t in g.target.elts):
+                    for t, v in zip(g.target.elts, row.elts):
+                        env[t.id] = v
+                else:
+                    return None
+                if any(not isinstance(v, (ast.Name, ast.Constant, ast.Attribute)) for v in env.values()):
+                    return None          # values are substituted more than once: only side-effect-free leaves
+
+                class S(ast.NodeTransformer):
+                    def visit_Name(self, x, env=env):
+                        return _c.deepcopy(env[x.id]) if x.id in env and isinstance(x.ctx, ast.Load) else x
+                rows.append(([S().visit(_c.deepcopy(c)) for c in g.ifs], S().visit(_c.deepcopy(n.value.elt))))
+            name = n.targets[0].id
+            out = [ast.copy_location(ast.Assign(targets=[ast.Name(id=name, ctx=ast.Store())], value=ast.List(elts=[], ctx=ast.Load()), type_comment=None), n)]
+            for conds, elt in rows:
+                app = ast.Expr(value=ast.Call(func=ast.Attribute(value=ast.Name(id=name, ctx=ast.Load()), attr="append", ctx=ast.Load()), args=[elt], keywords=[]))
+                test = conds[0] if len(conds) == 1 else ast.BoolOp(op=ast.And(), values=conds)
+                out.append(ast.copy_location(ast.If(test=test, body=[app], orelse=[]), n))
+            return [ast.fix_missing_locations(o) for o in out]
+
         def visit_Assign(self, n):
             n = self.generic_visit(n)
+            un = self._unroll_literal_comprehension(n)
+            if un is not None:
+                return un
             # `obj.attr, acc = f(..)`  ->  `__u, acc = f(..); obj.attr = __u`   (each store gets a statement of its own)
             if len(n.targets) == 1 and isinstance(n.targets[0], ast.Tuple) and isinstance(n.value, ast.Call) \
                     and any(isinstance(t, (ast.Attribute, ast.Subscript)) for t in n.targets[0].elts) \
